@@ -185,7 +185,12 @@ func (a *AddrManager) safelyCheckPassword(privPass []byte) error {
 	if err != nil {
 		return err
 	}
-	a.masterKeyPriv.Zero()
+	// while unlocked the derived master key backs the cached unlock state and
+	// checkPassword only compared the salted hash: zeroing it here would make
+	// every later use of the right passphrase fail until the next lock
+	if !a.unlocked {
+		a.masterKeyPriv.Zero()
+	}
 	return nil
 }
 
